@@ -3,8 +3,9 @@
 import json, os, subprocess, sys
 V = os.path.dirname(os.path.dirname(os.path.abspath(__file__)))
 pid = sys.argv[1]; n = int(sys.argv[2]) if len(sys.argv) > 2 else 4
+rnd = sys.argv[3] if len(sys.argv) > 3 else ''
 p = next(json.loads(l) for l in open(os.path.join(V, 'properties.jsonl')) if json.loads(l)['id'] == pid)
-tag = 'seed_' + pid.lower()
+tag = 'seed%s_' % rnd + pid.lower()
 wt = '/tmp/%s/wt' % tag
 os.makedirs('/tmp/' + tag, exist_ok=True)
 if not os.path.exists(wt):
@@ -26,6 +27,15 @@ txt = open(os.path.join(V, 'tools/prompts/seeder.txt')).read()
 txt = txt.replace('{WT}', wt).replace('{TITLE}', p['title']).replace('{STATEMENT}', p['statement']) \
     .replace('{QUANT}', p['quantifier']['text']).replace('{FILES}', ', '.join(p['anchors']['files'])) \
     .replace('{N}', str(n)).replace('{TAG}', tag).replace('{TESTS}', ' '.join(ts) or 'tests/unittest')
+if rnd:
+    import glob
+    prev = []
+    for m in sorted(glob.glob(os.path.join(V, 'seeded', pid + '-*', 'meta.json'))):
+        prev.append('  - ' + json.load(open(m))['breaks'])
+    txt += ('\nThis is a SECOND round. The following changes were already produced in an earlier round; do not repeat them or '
+            'close variants of them - look for different code sites, different clauses of the property, different kinds of '
+            'slip (state kept across calls, rarely used argument forms, error paths, boundary values, interactions between two '
+            'features, configuration switches):\n' + '\n'.join(prev) + '\n')
 out = '/tmp/%s/prompt.txt' % tag
 open(out, 'w').write(txt)
 print(out)
